@@ -110,6 +110,13 @@ def gen_schema(rng, recursive_ok=True):
     n_s = rng.choice([0, 1])
     complex_names = ["CT%d" % i for i in range(n_c)]
     simple_names = ["ST%d" % i for i in range(n_s)]
+    if rng.random() < 0.2:
+        # user-defined types named like the local names of built-in types (legal: they live in no namespace, the
+        # built-ins in the XSD namespace) -- a lookup that ignores the prefix would confuse them
+        pool = ["boolean", "decimal", "string", "integer", "int", "double", "dateTime"]
+        rng.shuffle(pool)
+        complex_names = pool[:n_c]
+        simple_names = pool[n_c:n_c + n_s]
     types = []
     for n in simple_names:
         types.append((n, gen_simple(rng)))
